@@ -138,7 +138,14 @@ def format_cases(draw):
     mode = PICK(draw, ["print-format", "print-format", "print-args", "assert-format", "assume-format", "assert-str"])
     return {"args": args, "fmt": "".join(pieces), "fmt_nested": "".join(npieces), "mode": mode, "opts": opts_total,
             "sep": PICK(draw, [None, "", " ", ", ", "{"]), "end": PICK(draw, [None, "", "\n", "!", "}}"]),
-            "strmsg": PICK(draw, ["plain", "got {} instead", "{{x}}", "{", "}", "a{0}b", "{:d}"])}
+            "strmsg": PICK(draw, ["plain", "got {} instead", "{{x}}", "{", "}", "a{0}b", "{:d}"]),
+            # the string arguments of a multi-argument Print: labels, or nothing at all (print("", x) still separates)
+            "labels": [PICK(draw, [None, None, "", "", "a b"]) for _ in range(n)]}
+
+
+def label(case, i):
+    lab = (case.get("labels") or [None] * (i + 1))[i]
+    return f"<{i}>" if lab is None else lab
 
 
 def format_body(ctx, case):
@@ -167,7 +174,7 @@ def format_body(ctx, case):
             # bare values, strings and Format objects as separate print() arguments
             pargs = []
             for i, a in enumerate(args):
-                pargs.append(f"<{i}>")
+                pargs.append(label(case, i))
                 pargs.append(sigs[i] if a["type"] in ("", "d") and a["spec"] in ("", "d") else
                              Format("{:" + a["spec"] + "}", sigs[i]))
             with m.If(go):
@@ -186,7 +193,7 @@ def format_body(ctx, case):
         if mode == "print-args":
             parts = []
             for i, a in enumerate(args):
-                parts.append(f"<{i}>")
+                parts.append(label(case, i))
                 parts.append(py_format(a["spec"], a["type"], objs[i]))
             sep = " " if case["sep"] is None else case["sep"]
             end = "\n" if case["end"] is None else case["end"]
@@ -258,6 +265,8 @@ def format_body(ctx, case):
     if any("=" in a["spec"] for a in args): keys.append("fmt:align=")
     if any(a["spec"][:1] and a["spec"][:1] not in "<>=+- #0123456789_bodxXcs" for a in args): keys.append("fmt:fill")
     if "{{" in case["fmt"] or "}}" in case["fmt"]: keys.append("fmt:literal-braces")
+    if case["mode"] == "print-args" and (case.get("labels") or [None])[0] == "" and case["sep"] != "":
+        keys.append("fmt:print-with-leading-empty-argument")
     if any(a.get("nested") for a in args) and mode in ("print-format", "assert-format", "assume-format"):
         keys.append("fmt:nested-width-field")
     if mode == "assert-str" and ("{" in case["strmsg"] or "}" in case["strmsg"]): keys.append("fmt:str-message-with-braces")
@@ -522,7 +531,7 @@ def parts(tier):
 
 REQUIRED = ["fmt:print-format", "fmt:print-args", "fmt:assert-format", "fmt:assume-format", "fmt:assert-str",
             "fmt:type-none", "fmt:type-d", "fmt:type-b", "fmt:type-o", "fmt:type-x", "fmt:type-X", "fmt:type-c", "fmt:type-s",
-            "fmt:negative", "fmt:width0", "fmt:align=", "fmt:fill", "fmt:literal-braces", "fmt:str-message-with-braces",
+            "fmt:negative", "fmt:width0", "fmt:align=", "fmt:fill", "fmt:literal-braces", "fmt:print-with-leading-empty-argument", "fmt:str-message-with-braces",
             "reject:raised", "tim:edge-pos", "tim:edge-neg", "tim:async-reset", "tim:printed", "tim:silent-edge",
             "tim:inactive-before-active", "tim:assert-stopped", "tim:async-reset-rise",
             "tim:async-reset-rise-after-inactive-edge", "tim:monitor-enable-inserter", "tim:monitor-plain",
